@@ -61,7 +61,7 @@ CHECKS = {
             "DESIGN.md §6 C10"),
     "C12": ("pipesim", "exploration",
             "deterministic simulation: filter stage as a shuttle thread between bounded channels (capacity/pacing/consumer-drop knobs) plus the set matcher, against the combination rule over real per-filter verdicts",
-            "Seeded search over filter sets (0-6 filters of every kind, enabled or not, negated or not, overlapping criteria) x simulated message streams x schedules/capacities/consumer pacing/consumer drop. Forwarded sequence, order and the kept/dropped counters of the real stream filter stage and the verdicts of the real set matcher (on the set StreamContext::from builds) are compared with the stated rule applied to the real per-filter verdicts. Sampling, not proof.",
+            "Seeded search over filter sets (0-6 filters of every kind, enabled or not, negated or not, overlapping criteria) x simulated message streams x schedules/capacities/consumer pacing/consumer drop. Forwarded sequence, order and the kept/dropped counters of the real stream filter stage and the verdicts of the real set matcher (on the set StreamContext::from builds), the server's incremental stream index as a stream and as a one-time query with a window reached in a later hand-over and enlarged afterwards, and the export plugin's file are compared with the stated rule applied to the real per-filter verdicts. Sampling, not proof.",
             "Per-filter semantics (C11) are taken from the real Filter::matches and not decided here.",
             "DESIGN.md §6 C12"),
     "C17": ("protosim", "fault_enumeration",
